@@ -13,7 +13,9 @@ import (
 	"github.com/ipld/go-ipld-prime"
 	cidlink "github.com/ipld/go-ipld-prime/linking/cid"
 	mh "github.com/multiformats/go-multihash"
+	"google.golang.org/protobuf/encoding/protowire"
 
+	"verif/harness/model"
 	"verif/harness/store"
 )
 
@@ -134,4 +136,48 @@ func RefPlainDir(s *store.Store, es []DirEntry) (cid.Cid, error) {
 	}
 	s.Put(nd.Cid(), nd.RawData())
 	return nd.Cid(), nil
+}
+
+// DeepChain writes a chain of `depth` single-child shards along name's real
+// hash path (levels beyond the hash's capacity use bucket 0) with the value
+// link for name in the last shard, and returns the root. It is what a hostile
+// or a maximally colliding writer produces.
+func DeepChain(s *store.Store, name string, fanout, depth int) (cid.Cid, DirEntry) {
+	w := 0
+	for 1<<uint(w) < fanout {
+		w++
+	}
+	pad := model.PadLen(fanout)
+	leaf := Leaf(s, name)
+	h := model.Hash64(name)
+	var child cid.Cid
+	var childSize uint64
+	for level := depth - 1; level >= 0; level-- {
+		idx, ok := model.Bucket(h, level, w)
+		if !ok {
+			idx = 0
+		}
+		bf := make([]byte, fanout/8)
+		bf[len(bf)-1-idx/8] |= 1 << uint(idx%8)
+		for len(bf) > 1 && bf[0] == 0 {
+			bf = bf[1:] // the reference writer strips leading zero bytes
+		}
+		var link model.PBLink
+		prefix := fmt.Sprintf("%0*X", pad, idx)
+		if level == depth-1 {
+			link = model.PBLink{Cid: leaf.Cid, Name: prefix + name, HasName: true, Tsize: leaf.Tsize, HasTsize: true}
+		} else {
+			link = model.PBLink{Cid: child, Name: prefix, HasName: true, Tsize: childSize, HasTsize: true}
+		}
+		// UnixFS Data: type=5 (HAMTShard), data=bitfield, hashType=0x22, fanout
+		d := []byte{0x08, 0x05, 0x12}
+		d = protowire.AppendBytes(d, bf)
+		d = append(d, 0x28, 0x22, 0x30)
+		d = protowire.AppendVarint(d, uint64(fanout))
+		blk := model.EncodePB(&model.PBNode{Data: d, HasData: true, Links: []model.PBLink{link}})
+		c, _ := V1PB.Sum(blk)
+		s.Put(c, blk)
+		child, childSize = c, uint64(len(blk))+link.Tsize
+	}
+	return child, leaf
 }
